@@ -138,7 +138,6 @@ mod internal_metrics;
 use std::{
     fmt,
     io::{self, Write},
-    mem,
     path::{Path, PathBuf},
     sync::Arc,
     thread,
@@ -687,10 +686,16 @@ impl EventBatch {
     }
 
     fn advance(&mut self) {
-        let advanced = mem::take(&mut self.bufs[self.index]);
+        // NOTE: The buffer is left in place so the batch can be rewound
+        let advanced_len = self.bufs[self.index].len();
 
         self.index += 1;
-        self.remaining_bytes -= advanced.len();
+        self.remaining_bytes -= advanced_len;
+    }
+
+    fn rewind(&mut self) {
+        self.index = 0;
+        self.remaining_bytes = self.bufs.iter().map(|buf| buf.len()).sum();
     }
 }
 
@@ -880,6 +885,10 @@ impl Worker {
                         err,
                     )
                 }));
+
+                // Events written before the failure haven't been synced, and the file
+                // they were written to won't be used again, so retry the whole batch
+                batch.rewind();
 
                 return Err(emit_batcher::BatchError::retry(err, batch));
             }
